@@ -600,7 +600,7 @@ namespace avel {
 
     [[nodiscard]]
     AVEL_FINL vec1x32f fdim(vec1x32f a, vec1x32f b) {
-        return avel::max(a - b, vec1x32f{0.0f});
+        return vec1x32f{avel::fdim(decay(a), decay(b))};
     }
 
     [[nodiscard]]
